@@ -76,6 +76,8 @@ def main(tier, seed):
             emit_rust.assign_abi_names(prog)
         if i % 4 == 1:
             tooltier.add_docs(prog, rng)
+        if b == "demo_gen" and i % 2 == 0:
+            tooltier.add_demo_attrs(prog, rng)
         if i % 2 == 0 and tooltier.profiles.support(b)["namespacing"]:
             # types spread over several namespaces with cyclic references between them: headers then forward-declare / include across namespaces
             tooltier.reference_graph_features(prog, rng, keyword_fields=False, renames=False, namespaces=True)
